@@ -77,8 +77,13 @@ func (jd *JarDigest) Sign(ctx context.Context, cert *certloader.Certificate, ali
 func (jd *JarDigest) insertSignature(cert *x509.Certificate, alias string, sf, sig []byte) (*binpatch.PatchSet, error) {
 	signame, pkcsname := sigNames(cert.PublicKey, alias)
 	deflate := jd.shouldDeflate()
-	// Add new files to beginning of zip
+	// Add new files in front of the first member, behind any leading non-zip data
+	start := jd.inz.DirLoc
+	if len(jd.inz.File) > 0 {
+		start = int64(jd.inz.File[0].Offset)
+	}
 	outz := new(zipslicer.Directory)
+	outz.DirLoc = start
 	var zipcon bytes.Buffer
 	mtime := time.Now()
 	if _, err := outz.NewFile(metaInf, jarMagic, nil, &zipcon, mtime, false, false); err != nil {
@@ -93,27 +98,41 @@ func (jd *JarDigest) insertSignature(cert *x509.Certificate, alias string, sf, s
 	if _, err := outz.NewFile(metaInf+pkcsname, nil, sig, &zipcon, mtime, deflate, false); err != nil {
 		return nil, err
 	}
-	// Patch out old files
+	// Patch out old files. Kept files stay where their bytes are, moved by
+	// whatever was inserted or removed in front of them, so the directory has
+	// to list the members in the order they appear in the file.
 	patch := binpatch.New()
-	patch.Add(0, 0, zipcon.Bytes())
+	patch.Add(start, 0, zipcon.Bytes())
+	shift := int64(zipcon.Len())
+	lastEnd := start
 	for _, f := range jd.inz.File {
+		size, err := f.GetTotalSize()
+		if err != nil {
+			return nil, err
+		}
+		if int64(f.Offset) < lastEnd {
+			return nil, errors.New("zip members are not stored in directory order")
+		}
+		lastEnd = int64(f.Offset) + size
 		if keepFile(f.Name) {
 			// Add existing file to the new zip directory. Its offset will be changed.
+			outz.DirLoc = int64(f.Offset) + shift
 			if _, err := outz.AddFile(f); err != nil {
 				return nil, err
 			}
 		} else {
 			// remove this region from the old zip
-			size, err := f.GetTotalSize()
-			if err != nil {
-				return nil, err
-			}
 			if size > 0xffffffff {
 				return nil, errors.New("signature file too big")
 			}
 			patch.Add(int64(f.Offset), size, nil)
+			shift -= size
 		}
 	}
+	if lastEnd > jd.inz.DirLoc {
+		return nil, errors.New("zip members overlap the central directory")
+	}
+	outz.DirLoc = jd.inz.DirLoc + shift
 	zipdir := new(bytes.Buffer)
 	if err := outz.WriteDirectory(zipdir, zipdir, false); err != nil {
 		return nil, err
